@@ -894,3 +894,88 @@ CONTRACTS[CI + 'CNOT#2'] = dict(
             ['implies(qubits[0] < qubits[1], %s)' % e for e in _table_post(*_cnot_ct)] +
             ['implies(qubits[0] > qubits[1], %s)' % e for e in _table_post(*_cnot_tc)],
     modifies=[], returns=GATE_NAMED)
+
+
+# ------------------------------------------------------------------ C20: the parser pauli() on symbol sequences
+# One statement for both symbol alphabets (integer codes / letters): operator symbols fill the qubits in order, prefix symbols
+# describe no qubit, the phase is the one the prefix symbols describe (spec functions Toks / CodePhase / ToksC / CharPhase).
+def _parser_contract(ty, isop, opx, opz, toks, phase):
+    n = 'len(obj)'
+    pos = '(j - %s(obj, j))' % toks
+    inv = ['len(g) == 2 * len(obj)', 'N == len(obj)', 'h == %s(obj, i)' % toks, '0 <= h <= i', 'p == %s(obj, i)' % phase,
+           'forall(j, 0, i, implies(%s(obj[j]) == 1, g[2 * %s] == %s(obj[j]) and g[2 * %s + 1] == %s(obj[j])))' % (isop, pos, opx, pos, opz),
+           'forall(c, 2 * (i - h), len(g), g[c] == 0)']
+    return dict(
+        params=[('obj', ty), ('N', 'none')], defaults={'N': None}, requires=[],
+        ensures=['len(result.g) == 2 * (%s - %s(obj, %s))' % (n, toks, n),
+                 'forall(j, 0, %s, implies(%s(obj[j]) == 1, result.g[2 * %s] == %s(obj[j]) and result.g[2 * %s + 1] == %s(obj[j])))'
+                 % (n, isop, pos, opx, pos, opz),
+                 'result.p == %s(obj, %s)' % (phase, n)],
+        modifies=[], returns=dict(PAULI, exact=False),
+        loops={0: dict(var='i', invariant=inv,
+                       hints_head=[('forall_lemma', [('j', '0', 'i')], 'toks_mono' + ('' if toks == 'Toks' else '_c'), ['obj', 'j', 'i'])])},
+    )
+
+
+CONTRACTS[PA + 'pauli#codes'] = _parser_contract('int1', 'IsOp', 'OpX', 'OpZ', 'Toks', 'CodePhase')
+CONTRACTS[PA + 'pauli#chars'] = _parser_contract('char1', 'IsOpC', 'OpXC', 'OpZC', 'ToksC', 'CharPhase')
+CONTRACTS[PA + 'pauli#str'] = dict(_parser_contract('str', 'IsOpC', 'OpXC', 'OpZC', 'ToksC', 'CharPhase'), loops={})
+LEMMAS['toks_range'] = dict(
+    doc='the number of prefix symbols among the first k symbols lies between 0 and k',
+    params=[('a', 'int1'), ('k', 'int')],
+    requires=['0 <= k'],
+    ensures=['0 <= Toks(a, k)', 'Toks(a, k) <= k'],
+    induction='k',
+)
+LEMMAS['toks_mono'] = dict(
+    doc='an operator symbol at j is placed strictly before the place of every later symbol: the places j - Toks(a, j) do not collide',
+    params=[('a', 'int1'), ('j', 'int'), ('k', 'int')],
+    requires=['0 <= j < k'],
+    ensures=['implies(IsOp(a[j]) == 1, j - Toks(a, j) < k - Toks(a, k))', 'Toks(a, j) <= Toks(a, k)', 'k - Toks(a, k) >= j - Toks(a, j)', 'Toks(a, k) >= 0', 'Toks(a, k) <= k'],
+    induction='k', uses=[('lemma', 'toks_range', ['a', 'k']), ('lemma', 'toks_range', ['a', 'j'])],
+)
+LEMMAS['toks_range_c'] = dict(
+    doc='the number of prefix symbols among the first k symbols lies between 0 and k',
+    params=[('a', 'int1'), ('k', 'int')],
+    requires=['0 <= k'],
+    ensures=['0 <= ToksC(a, k)', 'ToksC(a, k) <= k'],
+    induction='k',
+)
+LEMMAS['toks_mono_c'] = dict(
+    doc='an operator symbol at j is placed strictly before the place of every later symbol: the places j - ToksC(a, j) do not collide',
+    params=[('a', 'int1'), ('j', 'int'), ('k', 'int')],
+    requires=['0 <= j < k'],
+    ensures=['implies(IsOpC(a[j]) == 1, j - ToksC(a, j) < k - ToksC(a, k))', 'ToksC(a, j) <= ToksC(a, k)', 'k - ToksC(a, k) >= j - ToksC(a, j)', 'ToksC(a, k) >= 0', 'ToksC(a, k) <= k'],
+    induction='k', uses=[('lemma', 'toks_range_c', ['a', 'k']), ('lemma', 'toks_range_c', ['a', 'j'])],
+)
+# "tokenizing then parsing returns the original operator including its phase": a row of pauli_tokenize (its postcondition) read by
+# pauli#codes (its postcondition) gives back the string and the phase -- two lemmas over the spec functions of the two contracts
+_tokrow = ['len(t) == N + 1', 'len(g) == 2 * N', 'N >= 0', 'bits1(g)', '0 <= p < 4',
+           'forall(i, 0, N, t[i] == TOKEN(g[2 * i], g[2 * i + 1]))', 't[N] == PHASE_TOKEN(p)']
+LEMMAS['tokens_no_prefix'] = dict(
+    doc='the first N entries of a token row are operator codes',
+    params=[('t', 'int1'), ('g', 'int1'), ('p', 'int'), ('N', 'int'), ('k', 'int')],
+    requires=_tokrow + ['0 <= k <= N'],
+    ensures=['Toks(t, k) == 0'],
+    induction='k',
+)
+LEMMAS['tokens_roundtrip'] = dict(
+    doc='parsing a token row: N qubits, the original string, the original phase',
+    params=[('t', 'int1'), ('g', 'int1'), ('p', 'int'), ('N', 'int')],
+    requires=_tokrow,
+    ensures=['2 * (len(t) - Toks(t, len(t))) == len(g)', 'CodePhase(t, len(t)) == p',
+             'forall(i, 0, N, IsOp(t[i]) == 1 and i - Toks(t, i) == i and OpX(t[i]) == g[2 * i] and OpZ(t[i]) == g[2 * i + 1])'],
+    uses=[('forall_lemma', [('k', '0', 'N + 1')], 'tokens_no_prefix', ['t', 'g', 'p', 'N', 'k'])],
+)
+# "strings and index arrays describing the same operator construct equal Pauli objects": symbol-wise corresponding descriptions
+# (I X Y Z + -  <->  0 1 2 3 4 5) have the same prefix count, the same operator bits and the same phase
+_corr = 'forall(i, 0, len(s), (s[i] == 73 and c[i] == 0) or (s[i] == 88 and c[i] == 1) or (s[i] == 89 and c[i] == 2) or (s[i] == 90 and c[i] == 3) ' \
+        'or (s[i] == 43 and c[i] == 4) or (s[i] == 45 and c[i] == 5))'
+LEMMAS['chars_codes_agree'] = dict(
+    doc='a string and the code array that spells the same symbols describe the same operator',
+    params=[('s', 'int1'), ('c', 'int1'), ('k', 'int')],
+    requires=['len(s) == len(c)', _corr, '0 <= k <= len(s)'],
+    ensures=['ToksC(s, k) == Toks(c, k)', 'CharPhase(s, k) == CodePhase(c, k)',
+             'forall(i, 0, len(s), IsOpC(s[i]) == IsOp(c[i]) and OpXC(s[i]) == OpX(c[i]) and OpZC(s[i]) == OpZ(c[i]))'],
+    induction='k',
+)
